@@ -53,8 +53,8 @@ ASSUMPTIONS = ['whitening and the adjusted likelihoods are driven with >= 2 summ
                'the recording generator replaces BSL.random_state (same seed, same stream); proposals are read from its '
                'multivariate_normal calls']
 CONFIG = {
-    'quick': {'shards': 16, 'cases': 40, 'timeout': 600, 'floor': 120},
-    'thorough': {'shards': 32, 'cases': 600, 'timeout': 3000, 'floor': 3800},
+    'quick': {'shards': 16, 'cases': 40, 'timeout': 600, 'floor': 128},
+    'thorough': {'shards': 32, 'cases': 900, 'timeout': 3000, 'floor': 5760},
 }
 REQUIRED = ['lik_std_checked', 'lik_whiten_checked', 'lik_warton_checked', 'lik_whiten_warton_checked', 'lik_go_checked',
             'lik_go_indefinite_checked', 'lik_mean_checked', 'lik_variance_checked', 'lik_checked_inside_runs',
@@ -711,19 +711,20 @@ def run_mh(ctx, case):
         R = math.exp(logRc)
         thr = min(1.0, R)
         ambiguous = (not conv) or abs(u - thr) <= 1e-6 * thr
-        if ambiguous:
+        both = acc_actual and rej_actual       # proposal equal to the current state: the row cannot tell
+        if ambiguous or both:
             ctx.event('mh_ambiguous_transitions')
-        elif (u < thr) != bool(acc_actual and not (rej_actual and not (u < thr))):
-            # (a proposal bitwise equal to the current state is both; then either reading is fine)
-            if not (acc_actual and rej_actual):
+            accepted = acc_actual and not rej_actual if not both else (u < thr)
+        else:
+            accepted = acc_actual
+            if (u < thr) != accepted:
                 raise Violation('mh-accept-decision', 'transition %d: u=%r, min(1, ratio)=%r, but the proposal was %s' % (
-                    n, u, thr, 'accepted' if acc_actual else 'rejected'), wit)
+                    n, u, thr, 'accepted' if accepted else 'rejected'), wit)
         ctx.event('mh_transitions_checked')
-        if acc_actual and not rej_actual:
+        if accepted:
             n_acc += 1
-            cur, cur_ll, cur_lp, cur_ssx = prop.copy(), ll, lp, e[1]
             # continue from elfi's own row so that rounding never accumulates
-            cur = np.array(row, dtype=float)
+            cur, cur_ll, cur_lp, cur_ssx = np.array(row, dtype=float), ll, lp, e[1]
         else:
             n_rej += 1
     if i != len(ev):
